@@ -226,10 +226,7 @@ func scType() aliasType[edwards25519.Scalar] {
 		},
 		clone: func(s *edwards25519.Scalar) *edwards25519.Scalar { return new(edwards25519.Scalar).Set(s) },
 		snap: func(s *edwards25519.Scalar) string {
-			if raw.ScalarOK() {
-				return fmt.Sprint(raw.ScalarLimbs(s))
-			}
-			return string(s.Bytes())
+			return raw.ScalarSnap(s)
 		},
 		enc: func(s *edwards25519.Scalar) string { return hx(s.Bytes()) },
 	}
@@ -247,11 +244,7 @@ func ptType() aliasType[edwards25519.Point] {
 		},
 		clone: func(p *edwards25519.Point) *edwards25519.Point { return new(edwards25519.Point).Set(p) },
 		snap: func(p *edwards25519.Point) string {
-			if raw.PointOK() {
-				b := raw.PointBytes(p)
-				return string(b[:])
-			}
-			return string(p.Bytes())
+			return raw.PointSnap(p)
 		},
 		enc: func(p *edwards25519.Point) string {
 			st := observePoint(p)
